@@ -302,6 +302,19 @@ Proof.
   intros l r Hnin. unfold scan_lines. rewrite (scan_lines_aux_app_nl l [] r Hnin). reflexivity.
 Qed.
 
+(* the line scanner drops one trailing carriage return, and only from the end *)
+Lemma cx_drop_cr_app : forall p a,
+  p <> [] -> last p x00 <> c_cr -> drop_cr (p ++ a) = p ++ drop_cr a.
+Proof.
+  intros p a Hp Hl. destruct (rev a) as [|x r] eqn:E.
+  - assert (Ha : a = []) by (rewrite <- (rev_involutive a), E; reflexivity). subst a.
+    change (drop_cr []) with (@nil byte). rewrite app_nil_r. apply drop_cr_id. right. exact Hl.
+  - unfold drop_cr. rewrite rev_app_distr, E. cbn [app].
+    destruct (beqb x c_cr).
+    + rewrite rev_app_distr, rev_involutive. reflexivity.
+    + reflexivity.
+Qed.
+
 Lemma kv_prefix_last : forall k, last (c_tab :: k ++ [c_sp; x3d; c_sp]) x00 <> c_cr.
 Proof.
   intro k.
@@ -321,7 +334,7 @@ Proof.
   - rewrite (IH rest Hall). f_equal. unfold ConfigFacts.kv_line, rd_kv_line. cbn [fst snd].
     assert (E : c_tab :: k ++ [c_sp; x3d; c_sp] ++ v = (c_tab :: k ++ [c_sp; x3d; c_sp]) ++ v).
     { cbn [app]. f_equal. rewrite <- app_assoc. reflexivity. }
-    rewrite E. apply CommitCmdFacts.drop_cr_app; [discriminate | apply kv_prefix_last].
+    rewrite E. apply cx_drop_cr_app; [discriminate | apply kv_prefix_last].
   - unfold ConfigFacts.kv_line. cbn [fst snd].
     apply ConfigFacts.not_in_cons; [discriminate|]. apply ConfigFacts.not_in_app; [exact Hk|].
     cbn [app]. repeat (apply ConfigFacts.not_in_cons; [discriminate|]). exact Hv.
@@ -797,7 +810,6 @@ Theorem commit_total : forall e msg w c,
   Reachable w -> w_coll w = false -> SnapshotFacts.SmallStore (w_objs w) ->
   ctx_of w = Some c -> gate_open w c ->
   sign_ok (user_name (x_l c) (x_g c)) (user_email (x_l c) (x_g c)) (e_time e) (e_off e) ->
-  msg_ok msg ->
   commit_sizes_ok e c msg w ->
   exists root subs cm,
     write_tree_top (idx_of w) = Some (root, subs) /\
@@ -808,14 +820,14 @@ Theorem commit_total : forall e msg w c,
     c_msg cm = msg /\
     c_parents cm = parent_list (tip_of w).
 Proof.
-  intros e msg w c Hr Hc Hsm Hx Hg Hso Hm Hsz.
+  intros e msg w c Hr Hc Hsm Hx Hg Hso Hsz.
   pose proof (SnapshotFacts.reachable_good w Hr Hc Hsm) as Hgood.
   destruct Hgood as (_ & [_ Hv] & _).
   destruct (TreeFacts.write_tree_fuel_any (idx_of w)) as [[root subs] Hw].
   destruct (Hsz root subs Hw) as [Hszt Hszc].
   assert (Htip : forall tip, tip_of w = Some tip -> length tip = 20).
   { intros tip Ht. exact (loaded_tip_length w c tip Hx Ht). }
-  pose proof (commit_parses e c msg w root Hso Hm Htip) as Hp.
+  pose proof (commit_parses e c msg w root Hso Htip) as Hp.
   pose proof (sign_ok_nl e c Hso) as Hnl.
   destruct (HeadFacts.commit_step_spec' e msg w c root subs (commit_of e c msg w root)
               Hr Hx Hg Hv Hw Hszt Hszc Hp Hnl) as [Hstep Hpost].
@@ -830,7 +842,6 @@ Qed.
 Theorem commit_total_live : forall e msg w c,
   Reachable w -> ctx_of w = Some c -> gate_open w c ->
   sign_ok (user_name (x_l c) (x_g c)) (user_email (x_l c) (x_g c)) (e_time e) (e_off e) ->
-  msg_ok msg ->
   w_coll (step_w (ACmd e (CCommit msg)) w) = false ->
   SnapshotFacts.SmallStore (w_objs (step_w (ACmd e (CCommit msg)) w)) ->
   exists root subs cm,
@@ -845,7 +856,7 @@ Theorem commit_total_live : forall e msg w c,
     spec_flatten (S (length (w_objs (after_commit e c msg w root subs))))
       (w_objs (after_commit e c msg w root subs)) [] (c_tree cm) = Some (idx_of w).
 Proof.
-  intros e msg w c Hr Hx Hg Hso Hm Hc' Hsm'.
+  intros e msg w c Hr Hx Hg Hso Hc' Hsm'.
   assert (Hnb' : ~ ConnectedFacts.Bad (step_w (ACmd e (CCommit msg)) w)).
   { apply ConnectedFacts.not_bad_iff. split; [exact Hc' | exact Hsm']. }
   assert (Hnb : ~ ConnectedFacts.Bad w).
@@ -855,7 +866,7 @@ Proof.
   destruct (TreeFacts.write_tree_fuel_any (idx_of w)) as [[root subs] Hw].
   assert (Htip : forall tip, tip_of w = Some tip -> length tip = 20).
   { intros tip Ht. exact (loaded_tip_length w c tip Hx Ht). }
-  pose proof (commit_parses e c msg w root Hso Hm Htip) as Hp.
+  pose proof (commit_parses e c msg w root Hso Htip) as Hp.
   pose proof (HeadFacts.commit_step' e msg w c root subs _ Hr Hx Hg Hw Hp) as Hstep.
   assert (Ew : step_w (ACmd e (CCommit msg)) w = after_commit e c msg w root subs).
   { unfold step_w. rewrite Hstep. reflexivity. }
@@ -863,7 +874,7 @@ Proof.
   assert (Hsz : commit_sizes_ok e c msg w).
   { intros root0 subs0 Hw0. rewrite Hw in Hw0. injection Hw0 as <- <-.
     apply after_commit_sizes. exact Hnb'. }
-  destruct (commit_total e msg w c Hr Hc Hsm Hx Hg Hso Hm Hsz)
+  destruct (commit_total e msg w c Hr Hc Hsm Hx Hg Hso Hsz)
     as (root1 & subs1 & cm & Hw1 & Ecm & Hstep1 & Hpost & Emsg & Epar).
   rewrite Hw in Hw1. injection Hw1 as <- <-.
   exists root, subs, cm.
@@ -883,7 +894,6 @@ Theorem commit_total_gate : forall e msg w c,
    | None => w_refs w = [] /\ idx_of w <> []
    end) ->
   sign_ok (user_name (x_l c) (x_g c)) (user_email (x_l c) (x_g c)) (e_time e) (e_off e) ->
-  msg_ok msg ->
   w_coll (step_w (ACmd e (CCommit msg)) w) = false ->
   SnapshotFacts.SmallStore (w_objs (step_w (ACmd e (CCommit msg)) w)) ->
   exists root subs cm,
@@ -895,7 +905,7 @@ Theorem commit_total_gate : forall e msg w c,
     c_msg cm = msg /\
     c_parents cm = parent_list (tip_of w).
 Proof.
-  intros e msg w c Hr Hx Hu Hd Hso Hm Hc' Hsm'.
+  intros e msg w c Hr Hx Hu Hd Hso Hc' Hsm'.
   assert (Hg : gate_open w c).
   { destruct (tip_of w) as [hid|] eqn:Et.
     - destruct Hd as (s & Hs & Hne).
@@ -907,14 +917,14 @@ Proof.
       apply (GateFacts.gate_open_of_difference w c hid s); try assumption.
       apply SnapshotFacts.reachable_good; assumption.
     - destruct Hd as [Hrf Hne]. split; [exact Hu|]. rewrite Hrf. exact Hne. }
-  destruct (commit_total_live e msg w c Hr Hx Hg Hso Hm Hc' Hsm')
+  destruct (commit_total_live e msg w c Hr Hx Hg Hso Hc' Hsm')
     as (root & subs & cm & H1 & H2 & H3 & H4 & H5 & H6 & _).
   exists root, subs, cm. repeat (split; [assumption|]). assumption.
 Qed.
 
 (* (1) and (2) together: over a history whose `config` calls keep the files
    loadable (in particular: are in the domain of C20), nothing is assumed about the loaded context any more; what is left
-   is the user's ignore file, the identity/clock/message domain of C12, the
+   is the user's ignore file, the identity/clock domain of C12 (any message), the
    staged difference, and the guard on the world the step ends in *)
 Theorem history_commit_total : forall h w e msg,
   Forall action_ok h -> Forall loadable_action h ->
@@ -930,7 +940,6 @@ Theorem history_commit_total : forall h w e msg,
       | None => w_refs w = [] /\ idx_of w <> []
       end) ->
      sign_ok (user_name (x_l c) (x_g c)) (user_email (x_l c) (x_g c)) (e_time e) (e_off e) ->
-     msg_ok msg ->
      exists root subs cm,
        write_tree_top (idx_of w) = Some (root, subs) /\
        cm = commit_of e c msg w root /\
@@ -948,8 +957,8 @@ Proof.
     apply ConnectedFacts.not_bad_iff. split; [exact Hc' | exact Hsm']. }
   destruct (history_ctx_loads h w Hall Hok Hw Hnb Hp) as (c & Hx & Hwl & Hwg).
   exists c. split; [exact Hx|]. split; [exact Hwl|]. split; [exact Hwg|].
-  intros Hu Hd Hso Hm.
-  exact (commit_total_gate e msg w c Hr Hx Hu Hd Hso Hm Hc' Hsm').
+  intros Hu Hd Hso.
+  exact (commit_total_gate e msg w c Hr Hx Hu Hd Hso Hc' Hsm').
 Qed.
 
 (* ================================================================== *)
@@ -1007,7 +1016,6 @@ Proof.
   - rewrite GateFacts.gx_tip. exists GateFacts.gx_s.
     split; [exact GateFacts.gx_snapshot | exact GateFacts.gx_differs].
   - exact GateFacts.gx_sign_ok.
-  - exact GateFacts.gx_msg_ok.
   - rewrite cx_gx_step_w. exact (proj2 GateFacts.gx_commit_computed).
   - rewrite cx_gx_step_w. exact GateFacts.gx_small'.
   - exists root, subs, cm. repeat (split; [assumption|]).
@@ -1055,7 +1063,6 @@ Proof.
     + assert (Et : tip_of CommitCmdFacts.ex_w = None) by (vm_compute; reflexivity).
       rewrite Et. split; [vm_compute; reflexivity | vm_compute; discriminate].
     + exact CommitCmdFacts.ex_sign_ok.
-    + exact CommitCmdFacts.ex_msg_ok.
     + exists root, subs, cm. split; [exact H1|]. split; [exact H3|]. split; [exact H4|].
       split; [exact H5|]. rewrite H6.
       assert (Et : tip_of CommitCmdFacts.ex_w = None) by (vm_compute; reflexivity).
